@@ -41,6 +41,8 @@ pub struct Cfg {
     /// (offset, n): another search (other info-hash) is requested at T_SEARCH - 2 s + offset; three extra
     /// contacts answer it naming n far, silent addresses (a large end-game) and ignore the judged search
     pub busy: Option<(u64, usize)>,
+    /// (send_to takes this many ms to complete, one-way link latency in ms)
+    pub slow_send: Option<(u64, u64)>,
     pub rng_seed: u64,
 }
 
@@ -149,6 +151,10 @@ pub fn build(cfg: &Cfg, base_sends: Option<usize>) -> (Scenario, Vec<Box<dyn Pee
     sc.linger_ms = 2_000;
     sc.horizon_ms = T_SEARCH + 120_000;
     sc.link_latency = Arc::new(|_, _| 20);
+    if let Some((delay, lat)) = cfg.slow_send {
+        sc.send_delay_ms = delay;
+        sc.link_latency = Arc::new(move |_, _| lat);
+    }
     sc.eligible = Some(Arc::new(|d, p| d.sent_ms >= T_SEARCH && p.valid && ((p.y == 'q' && p.q == "get_peers") || ((p.y == 'r' && p.token.is_some()) || p.y == 'e'))));
     if let (Some(k), Some(base)) = (cfg.send_fail, base_sends) {
         sc.send_plan = vec![(0, base + k, if cfg.send_answer == 0 { SendAnswer::Err } else { SendAnswer::PendingOnce })];
@@ -281,7 +287,7 @@ fn beh_p(s: &str) -> Beh {
     }
 }
 fn cfg_json(c: &Cfg) -> Value {
-    json!({"peers": c.peers.iter().map(beh_s).collect::<Vec<_>>(), "chain": c.chain, "chain_end": beh_s(&c.chain_end), "announce": c.announce, "send_fail": c.send_fail, "send_answer": c.send_answer, "via_router": c.via_router, "poke_ms": c.poke_ms, "chain_unadmitted": c.chain_unadmitted, "busy": c.busy.map(|(o, n)| json!([o, n])), "rng_seed": c.rng_seed})
+    json!({"peers": c.peers.iter().map(beh_s).collect::<Vec<_>>(), "chain": c.chain, "chain_end": beh_s(&c.chain_end), "announce": c.announce, "send_fail": c.send_fail, "send_answer": c.send_answer, "via_router": c.via_router, "poke_ms": c.poke_ms, "chain_unadmitted": c.chain_unadmitted, "busy": c.busy.map(|(o, n)| json!([o, n])), "slow_send": c.slow_send.map(|(a, b)| json!([a, b])), "rng_seed": c.rng_seed})
 }
 fn cfg_parse(v: &Value) -> Cfg {
     Cfg {
@@ -295,6 +301,7 @@ fn cfg_parse(v: &Value) -> Cfg {
         poke_ms: v["poke_ms"].as_u64(),
         chain_unadmitted: v["chain_unadmitted"].as_bool().unwrap_or(false),
         busy: v["busy"].as_array().map(|a| (a[0].as_u64().unwrap_or(0), a[1].as_u64().unwrap_or(0) as usize)),
+        slow_send: v["slow_send"].as_array().map(|a| (a[0].as_u64().unwrap_or(0), a[1].as_u64().unwrap_or(20))),
         rng_seed: v["rng_seed"].as_u64().unwrap_or(1),
     }
 }
@@ -357,7 +364,7 @@ pub fn configs(tier: Tier, seed: u64) -> Vec<Cfg> {
                 }
             }
             for announce in [false, true] {
-                out.push(Cfg { peers: peers.clone(), chain: 0, chain_end: Beh::Answers, announce, send_fail: None, send_answer: 0, via_router: false, poke_ms: None, chain_unadmitted: false, busy: None, rng_seed: seed });
+                out.push(Cfg { peers: peers.clone(), chain: 0, chain_end: Beh::Answers, announce, send_fail: None, send_answer: 0, via_router: false, poke_ms: None, chain_unadmitted: false, busy: None, slow_send: None, rng_seed: seed });
             }
         }
     }
@@ -367,7 +374,7 @@ pub fn configs(tier: Tier, seed: u64) -> Vec<Cfg> {
             let mut peers = vec![Beh::Answers; n];
             peers[n - 1] = last.clone();
             for announce in [false, true] {
-                out.push(Cfg { peers: peers.clone(), chain: 0, chain_end: Beh::Answers, announce, send_fail: None, send_answer: 0, via_router: false, poke_ms: None, chain_unadmitted: false, busy: None, rng_seed: seed });
+                out.push(Cfg { peers: peers.clone(), chain: 0, chain_end: Beh::Answers, announce, send_fail: None, send_answer: 0, via_router: false, poke_ms: None, chain_unadmitted: false, busy: None, slow_send: None, rng_seed: seed });
             }
         }
     }
@@ -375,24 +382,24 @@ pub fn configs(tier: Tier, seed: u64) -> Vec<Cfg> {
     for via_router in [false, true] {
         for poke in [10u64, 700, 1_499, 1_500, 1_501, 2_000, 2_990] {
             for peers in [vec![Beh::Silent; 3], vec![Beh::Answers, Beh::Silent, Beh::Answers], vec![Beh::Answers; 2]] {
-                out.push(Cfg { peers, chain: 0, chain_end: Beh::Answers, announce: true, send_fail: None, send_answer: 0, via_router, poke_ms: Some(poke), chain_unadmitted: false, busy: None, rng_seed: seed });
+                out.push(Cfg { peers, chain: 0, chain_end: Beh::Answers, announce: true, send_fail: None, send_answer: 0, via_router, poke_ms: Some(poke), chain_unadmitted: false, busy: None, slow_send: None, rng_seed: seed });
             }
         }
-        out.push(Cfg { peers: vec![Beh::Answers; 3], chain: 2, chain_end: Beh::Silent, announce: false, send_fail: None, send_answer: 0, via_router, poke_ms: None, chain_unadmitted: false, busy: None, rng_seed: seed });
+        out.push(Cfg { peers: vec![Beh::Answers; 3], chain: 2, chain_end: Beh::Silent, announce: false, send_fail: None, send_answer: 0, via_router, poke_ms: None, chain_unadmitted: false, busy: None, slow_send: None, rng_seed: seed });
     }
     // chains whose nodes the routing table refuses (router addresses): queried by the search all the same
     for chain in 1..=3usize {
         for n in [2usize, 3, 4] {
             let mut peers = vec![Beh::Answers; n];
             peers[n - 1] = Beh::Silent;
-            out.push(Cfg { peers, chain, chain_end: Beh::Answers, announce: true, send_fail: None, send_answer: 0, via_router: false, poke_ms: None, chain_unadmitted: true, busy: None, rng_seed: seed });
+            out.push(Cfg { peers, chain, chain_end: Beh::Answers, announce: true, send_fail: None, send_answer: 0, via_router: false, poke_ms: None, chain_unadmitted: true, busy: None, slow_send: None, rng_seed: seed });
         }
     }
     // chains of ever closer nodes
     for chain in 1..=6usize {
         for end in behs.iter() {
             for n in [1usize, 2] {
-                out.push(Cfg { peers: vec![Beh::Answers; n], chain, chain_end: end.clone(), announce: chain % 2 == 0, send_fail: None, send_answer: 0, via_router: false, poke_ms: None, chain_unadmitted: false, busy: None, rng_seed: seed });
+                out.push(Cfg { peers: vec![Beh::Answers; n], chain, chain_end: end.clone(), announce: chain % 2 == 0, send_fail: None, send_answer: 0, via_router: false, poke_ms: None, chain_unadmitted: false, busy: None, slow_send: None, rng_seed: seed });
             }
         }
     }
@@ -401,8 +408,17 @@ pub fn configs(tier: Tier, seed: u64) -> Vec<Cfg> {
     for peers in [vec![Beh::Silent; 2], vec![Beh::Answers, Beh::Silent], vec![Beh::Answers; 3], vec![Beh::Silent; 4]] {
         for off in [500u64, 1_950, 3_440, 4_940] {
             for crowd in tier.pick(vec![60usize], vec![30, 60, 150]) {
-                out.push(Cfg { peers: peers.clone(), chain: 0, chain_end: Beh::Answers, announce: false, send_fail: None, send_answer: 0, via_router: false, poke_ms: None, chain_unadmitted: false, busy: Some((off, crowd)), rng_seed: seed });
+                out.push(Cfg { peers: peers.clone(), chain: 0, chain_end: Beh::Answers, announce: false, send_fail: None, send_answer: 0, via_router: false, poke_ms: None, chain_unadmitted: false, busy: Some((off, crowd)), slow_send: None, rng_seed: seed });
             }
+        }
+    }
+    // a socket whose send_to takes time: every query has its own 1.5 s from the instant it left
+    // (the whole round leaves within 1.4 s: while the handler is inside the send loop it neither reads answers
+    // nor runs timers, and a timeout that expires meanwhile races the answer already queued — outside what the
+    // statement quantifies over, see DESIGN.md)
+    for n in [2usize, 3] {
+        for (delay, lat) in [(400u64, 400u64), (300, 500), (450, 350)] {
+            out.push(Cfg { peers: vec![Beh::Answers; n], chain: 0, chain_end: Beh::Answers, announce: false, send_fail: None, send_answer: 0, via_router: false, poke_ms: None, chain_unadmitted: false, busy: None, slow_send: Some((delay, lat)), rng_seed: seed });
         }
     }
     out
@@ -434,11 +450,11 @@ pub fn run(tier: Tier) -> Report {
     // send failures: the k-th send after the search started fails, for every k
     let mut sf: Vec<Cfg> = vec![];
     for base in [
-        Cfg { peers: vec![Beh::Answers; 3], chain: 0, chain_end: Beh::Answers, announce: true, send_fail: None, send_answer: 0, via_router: false, poke_ms: None, chain_unadmitted: false, busy: None, rng_seed: seed },
-        Cfg { peers: vec![Beh::Answers, Beh::Silent], chain: 3, chain_end: Beh::Answers, announce: true, send_fail: None, send_answer: 0, via_router: false, poke_ms: None, chain_unadmitted: false, busy: None, rng_seed: seed },
-        Cfg { peers: vec![Beh::Silent; 2], chain: 0, chain_end: Beh::Answers, announce: false, send_fail: None, send_answer: 0, via_router: false, poke_ms: None, chain_unadmitted: false, busy: None, rng_seed: seed },
+        Cfg { peers: vec![Beh::Answers; 3], chain: 0, chain_end: Beh::Answers, announce: true, send_fail: None, send_answer: 0, via_router: false, poke_ms: None, chain_unadmitted: false, busy: None, slow_send: None, rng_seed: seed },
+        Cfg { peers: vec![Beh::Answers, Beh::Silent], chain: 3, chain_end: Beh::Answers, announce: true, send_fail: None, send_answer: 0, via_router: false, poke_ms: None, chain_unadmitted: false, busy: None, slow_send: None, rng_seed: seed },
+        Cfg { peers: vec![Beh::Silent; 2], chain: 0, chain_end: Beh::Answers, announce: false, send_fail: None, send_answer: 0, via_router: false, poke_ms: None, chain_unadmitted: false, busy: None, slow_send: None, rng_seed: seed },
         // more than 4 answering peers: the search has end-game queries and 6 announces to send
-        Cfg { peers: vec![Beh::Answers; 6], chain: 0, chain_end: Beh::Answers, announce: true, send_fail: None, send_answer: 0, via_router: false, poke_ms: None, chain_unadmitted: false, busy: None, rng_seed: seed },
+        Cfg { peers: vec![Beh::Answers; 6], chain: 0, chain_end: Beh::Answers, announce: true, send_fail: None, send_answer: 0, via_router: false, poke_ms: None, chain_unadmitted: false, busy: None, slow_send: None, rng_seed: seed },
     ] {
         let kmax = if base.peers.len() > 4 { 20 } else { tier.pick(10, 16) };
         for k in 0..kmax {
@@ -466,10 +482,10 @@ pub fn run(tier: Tier) -> Report {
     // deviations
     let fs = fates();
     let picks: Vec<Cfg> = vec![
-        Cfg { peers: vec![Beh::Answers, Beh::Answers], chain: 0, chain_end: Beh::Answers, announce: false, send_fail: None, send_answer: 0, via_router: false, poke_ms: None, chain_unadmitted: false, busy: None, rng_seed: seed },
-        Cfg { peers: vec![Beh::Answers, Beh::Silent, Beh::ErrorReply], chain: 0, chain_end: Beh::Answers, announce: true, send_fail: None, send_answer: 0, via_router: false, poke_ms: None, chain_unadmitted: false, busy: None, rng_seed: seed },
-        Cfg { peers: vec![Beh::Answers], chain: 2, chain_end: Beh::Answers, announce: false, send_fail: None, send_answer: 0, via_router: false, poke_ms: None, chain_unadmitted: false, busy: None, rng_seed: seed },
-        Cfg { peers: vec![Beh::Answers, Beh::Answers], chain: 4, chain_end: Beh::Silent, announce: true, send_fail: None, send_answer: 0, via_router: false, poke_ms: None, chain_unadmitted: false, busy: None, rng_seed: seed },
+        Cfg { peers: vec![Beh::Answers, Beh::Answers], chain: 0, chain_end: Beh::Answers, announce: false, send_fail: None, send_answer: 0, via_router: false, poke_ms: None, chain_unadmitted: false, busy: None, slow_send: None, rng_seed: seed },
+        Cfg { peers: vec![Beh::Answers, Beh::Silent, Beh::ErrorReply], chain: 0, chain_end: Beh::Answers, announce: true, send_fail: None, send_answer: 0, via_router: false, poke_ms: None, chain_unadmitted: false, busy: None, slow_send: None, rng_seed: seed },
+        Cfg { peers: vec![Beh::Answers], chain: 2, chain_end: Beh::Answers, announce: false, send_fail: None, send_answer: 0, via_router: false, poke_ms: None, chain_unadmitted: false, busy: None, slow_send: None, rng_seed: seed },
+        Cfg { peers: vec![Beh::Answers, Beh::Answers], chain: 4, chain_end: Beh::Silent, announce: true, send_fail: None, send_answer: 0, via_router: false, poke_ms: None, chain_unadmitted: false, busy: None, slow_send: None, rng_seed: seed },
     ];
     let mut levels = vec![];
     for (i, cfg) in picks.iter().enumerate() {
